@@ -280,10 +280,15 @@ def oracle(sc, events, ops, escaped):
             out.append("the CONNECT request is not terminated by an empty line")
         if b"Upgrade: websocket" in first or b"Sec-WebSocket-Key" in first:
             out.append("WebSocket handshake bytes inside the CONNECT request")
+        auth = [l for l in first.split(b"\r\n")[1:] if l.lower().startswith(b"proxy-authorization:")]
         if user:
             cred = (user if pw is None else "%s:%s" % (user, pw)).encode()
             if base64.standard_b64encode(cred) not in first:
                 out.append("proxy credentials missing from the CONNECT request")
+            elif len(auth) != 1:
+                out.append("the CONNECT request carries %d Proxy-Authorization headers (this proxy's credentials are to be sent once)" % len(auth))
+        elif auth:
+            out.append("the CONNECT request carries credentials (%r) although the configured proxy URL %s has none: they belong to some other connection" % (auth[0][:60], purl))
     for o in ops:
         if o[0] == "poke" and o[2] is None:
             out.append("%s() called by another thread while the proxy negotiation was in progress was accepted (it must raise: there is no websocket connection yet)" % o[1])
@@ -336,13 +341,33 @@ def run(rep, info, model, tier, seed):
     mres = model.run(mreq) if model is not None else None
     rep.watch_extraction(model, mreq)
     dis = 0
+    localised = 0
     for i, sc in enumerate(scs):
         events, ops, escaped, run_ = run_case(sc)
         rep.add_case(repr((sc["url"], sorted(sc["proxies"].items(), key=str), sc["proxy_script"], sc.get("connect_ok"), sc.get("send_fault"))))
         rep.traces_vs_impl += 1
         res = oracle(sc, events, ops, escaped)
         if res:
-            rep.violation(res[0], scenario=dict(url=sc["url"], proxies=sc["proxies"], proxy_script=[[s[0]] + ([s[1].hex()] if len(s) > 1 else []) for s in sc["proxy_script"]], connect_ok=sc.get("connect_ok", True), send_fault=sc.get("send_fault")),
+            store, note = sc, ""
+            if localised < 2:
+                # this process has been through i other connections: does the scenario fail alone in a fresh interpreter, or
+                # only after one of them?
+                localised += 1
+                alone = fam.fresh_run([sc], runner="harness.c19:_fresh_worker")[0]
+                if alone is not None and alone[0] is not None and not oracle(sc, *alone):
+                    note = " (seen in a process that had made other connections before; alone in a fresh interpreter the scenario behaves)"
+                    seen = set()
+                    for q in scs[:i]:
+                        k = (q["_pshape"], q["_rk"] in ("200",), q["_secure"])
+                        if k in seen or len(seen) > 40:
+                            continue
+                        seen.add(k)
+                        r2 = fam.fresh_run([q, sc], runner="harness.c19:_fresh_worker")[1]
+                        if r2 is not None and r2[0] is not None and oracle(sc, *r2):
+                            store = dict(sc, previously=[q])
+                            note = " (only after an earlier connection of the same process, stored with the scenario)"
+                            break
+            rep.violation(res[0] + note, scenario=fam.jsonable_sc(store),
                           expected=sc["_expect"], actual=dict(events=events, ops=[(o[0],) + tuple(x if not isinstance(x, bytes) else x[:60] for x in o[1:]) for o in ops][:30]), family="C19:proxy-replies")
         if mres is not None and not sc["_direct"] and sc.get("connect_ok", True) and sc.get("send_fault") is None:
             m_out = mres[2 * i]
@@ -363,6 +388,32 @@ def run(rep, info, model, tier, seed):
         rep.broken("proof obligation props/C19.v no longer checks: %s" % (rep.coq_failure,))
 
 
+def _fresh_worker(args):
+    sc, _opts = args
+    try:
+        for prev in sc.get("previously", ()):
+            run_case(prev)
+        events, ops, escaped, _run = run_case(sc)
+        return events, ops, escaped
+    except BaseException:
+        return None, None, None
+
+
 def replay(body):
-    print("re-run: /venv/bin/python /verif/check.py C19 quick (scenario in the replay file)")
-    return 2
+    sc = fam.unjson_sc(body["scenario"])
+    if "_expect" not in sc:
+        print("this replay file predates the stored oracle metadata: re-run /venv/bin/python /verif/check.py C19 quick")
+        return 2
+
+    def fix(s):
+        s = dict(s)
+        s["proxy_script"] = [tuple(x) for x in s["proxy_script"]]
+        return s
+    for prev in sc.get("previously", ()):
+        run_case(fix(prev))
+    events, ops, escaped, _run = run_case(fix(sc))
+    print("events:", events)
+    print("socket operations:", [(o[0],) + tuple(x if not isinstance(x, bytes) else x[:70] for x in o[1:]) for o in ops][:20])
+    res = oracle(sc, events, ops, escaped)
+    print("REPLAY:", ("VIOLATION reproduced: %s" % res[0]) if res else "property holds on this input")
+    return 1 if res else 0
